@@ -758,6 +758,28 @@ cfg("Map", lambda: Map(dict(MP)), lambda s: s in MP, map_model, "syes",
     kind="Map", shadow=lambda s: MP[s], skip=ARRAYS)
 
 
+class ScaledMap(Map):
+    """a user subclass that overrides the documented hook for the shadow
+    value"""
+
+    def mapped_value(self, value):
+        return self.map[value] * 1000
+
+
+def _scaled_model(v):
+    try:
+        return ("same", v) if v in {"yes": 1, "no": 0} else REJECT
+    except TypeError:
+        return REJECT
+    except Exception:
+        return UNSPEC
+
+
+cfg("ScaledMap", lambda: ScaledMap({"yes": 1, "no": 0}),
+    lambda s: s in ("yes", "no"), _scaled_model, "syes", kind="MapSub",
+    shadow=lambda s: {"yes": 1, "no": 0}[s] * 1000, skip=ARRAYS)
+
+
 # legacy mapped compounds: a mapping alternative next to a container type;
 # values the mapping cannot even hash are the container alternative's
 LMAP = {"yes": 1, "no": 0}
